@@ -11,6 +11,7 @@ import (
 	"errors"
 	"fmt"
 	"math/rand"
+	"mime/multipart"
 	"net/http"
 	"net/http/httptest"
 	"net/url"
@@ -64,6 +65,19 @@ type c13Case struct {
 	Form    []c13KV  `json:"form,omitempty"`
 	Cookie  []string `json:"cookie,omitempty"` // raw Cookie header lines
 	Params  []string `json:"params,omitempty"` // nil: GET/POST "/"; two URL-safe values: "/p/<key>/<other>" on route /p/:key/:other
+
+	// the REST of the query string / body: raw fragments joined with "&" around the well-formed pairs (bad
+	// %-escapes, semicolons, duplicate and very long fields, ...); RawFirst puts them in front
+	RawQuery []string `json:"raw_query,omitempty"`
+	RawBody  []string `json:"raw_body,omitempty"`
+	RawFirst bool     `json:"raw_first,omitempty"`
+	// body shape: Method "" = POST when there is a body; Multipart: Form pairs travel as multipart/form-data
+	// parts with this Boundary; CT = spelling of the media type (with parameters, boundary appended for
+	// multipart), "" = the canonical lower-case one
+	Method    string `json:"method,omitempty"`
+	Multipart bool   `json:"multipart,omitempty"`
+	Boundary  string `json:"boundary,omitempty"`
+	CT        string `json:"ct,omitempty"`
 }
 
 var errC13Validator = errors.New("validator backend failed")
@@ -243,21 +257,84 @@ func c13EncodePairs(kvs []c13KV) string {
 	return strings.Join(parts, "&")
 }
 
+func c13JoinRaw(pairs string, raw []string, first bool) string {
+	var parts []string
+	if first {
+		parts = append(parts, raw...)
+	}
+	if pairs != "" {
+		parts = append(parts, pairs)
+	}
+	if !first {
+		parts = append(parts, raw...)
+	}
+	return strings.Join(parts, "&")
+}
+
+// boundary parameter value as it may appear in a Content-Type header (quoted when it needs to be)
+func c13BoundaryParam(b string) string {
+	for i := 0; i < len(b); i++ {
+		ch := b[i]
+		if !(ch >= 'a' && ch <= 'z' || ch >= 'A' && ch <= 'Z' || ch >= '0' && ch <= '9' || ch == '-' || ch == '_' || ch == '.' || ch == '+' || ch == '\'') {
+			return `"` + b + `"`
+		}
+	}
+	return b
+}
+
 func c13Request(c *c13Case) *http.Request {
 	target := "/"
 	if len(c.Params) == 2 {
 		target = "/p/" + c.Params[0] + "/" + c.Params[1]
 	}
-	if len(c.Query) > 0 {
-		target += "?" + c13EncodePairs(c.Query)
+	hasBody := len(c.Form) > 0 || len(c.RawBody) > 0
+	method := c.Method
+	if method == "" {
+		method = http.MethodGet
+		if hasBody {
+			method = http.MethodPost
+		}
 	}
 	var req *http.Request
-	if len(c.Form) > 0 {
-		req = httptest.NewRequest(http.MethodPost, target, strings.NewReader(c13EncodePairs(c.Form)))
-		req.Header.Set("Content-Type", "application/x-www-form-urlencoded")
-	} else {
-		req = httptest.NewRequest(http.MethodGet, target, nil)
+	switch {
+	case hasBody && c.Multipart:
+		var buf bytes.Buffer
+		w := multipart.NewWriter(&buf)
+		boundary := c.Boundary
+		if boundary == "" || w.SetBoundary(boundary) != nil {
+			boundary = "c13verifboundary"
+			_ = w.SetBoundary(boundary)
+		}
+		for _, kv := range c.Form {
+			fw, err := w.CreateFormField(string(kv.K))
+			if err == nil {
+				_, _ = fw.Write(kv.V)
+			}
+		}
+		_ = w.Close()
+		req = httptest.NewRequest(method, target, &buf)
+		ct := c.CT
+		if ct == "" {
+			ct = "multipart/form-data"
+		}
+		if strings.Contains(ct, "%s") {
+			ct = strings.Replace(ct, "%s", c13BoundaryParam(boundary), 1)
+		} else {
+			ct += "; boundary=" + c13BoundaryParam(boundary)
+		}
+		req.Header.Set("Content-Type", ct)
+	case hasBody:
+		req = httptest.NewRequest(method, target, strings.NewReader(c13JoinRaw(c13EncodePairs(c.Form), c.RawBody, c.RawFirst)))
+		ct := c.CT
+		if ct == "" {
+			ct = "application/x-www-form-urlencoded"
+		}
+		req.Header.Set("Content-Type", ct)
+	default:
+		req = httptest.NewRequest(method, target, nil)
 	}
+	// set directly: the raw fragments need not survive a request-line parser
+	req.URL.RawQuery = c13JoinRaw(c13EncodePairs(c.Query), c.RawQuery, c.RawFirst)
 	for _, h := range c.Headers {
 		k := http.CanonicalHeaderKey(h.Name)
 		for _, v := range h.Values {
@@ -459,6 +536,30 @@ func c13RunKey(c *c13Case) (res Result) {
 	}
 	if len(srcs) > 1 {
 		res.Tags = append(res.Tags, "key:multi-source")
+	}
+	if len(c.RawQuery) > 0 || len(c.RawBody) > 0 {
+		res.Tags = append(res.Tags, "key:raw-neighbours")
+	}
+	if c.Multipart && len(c.Form) > 0 {
+		res.Tags = append(res.Tags, "key:form-multipart")
+		if c.CT != "" && !strings.HasPrefix(c.CT, "multipart/form-data") {
+			res.Tags = append(res.Tags, "key:form-multipart-mixed-case")
+		}
+	}
+	for i, s := range srcs {
+		if len(c13Candidates(s, located[i], 20)) == 0 {
+			continue
+		}
+		switch s.kind {
+		case "form":
+			if probe := c13Request(c); probe.ParseMultipartForm(32<<20) != nil {
+				res.Tags = append(res.Tags, "key:form-key-found-despite-parse-error")
+			}
+		case "query":
+			if _, err := url.ParseQuery(c13Request(c).URL.RawQuery); err != nil {
+				res.Tags = append(res.Tags, "key:query-key-found-despite-parse-error")
+			}
+		}
 	}
 	res.Nontrivial = len(calls) > 0
 	return res
@@ -761,6 +862,7 @@ func c13GenKey(r *rand.Rand) *c13Case {
 		{"query:key", "query", "key", ""},
 		{"query:api_key", "query", "api_key", ""},
 		{"form:key", "form", "key", ""},
+		{"form:token", "form", "token", ""},
 		{"cookie:key", "cookie", "key", ""},
 		{"cookie:session", "cookie", "session", ""},
 		{"param:key", "param", "key", ""},
@@ -894,12 +996,79 @@ func c13GenKey(r *rand.Rand) *c13Case {
 			}
 		}
 	}
+	// the REST of the request around the (well-formed) key: malformed neighbours, multipart, media-type spellings
+	for _, sp := range specs {
+		switch sp.kind {
+		case "form":
+			c13DecorateForm(r, c, sp.name)
+		case "query":
+			if r.Intn(2) == 0 {
+				c.RawQuery = c13RawFragments(r, sp.name)
+				c.RawFirst = r.Intn(2) == 0
+			}
+		}
+	}
 	// a key at a location that is NOT configured must never count
 	if r.Intn(6) == 0 {
 		c.Headers = append(c.Headers, c13Hdr{Name: "X-Other", Values: [][]byte{[]byte(tok)}})
 	}
 	r.Shuffle(len(c.Table), func(i, j int) { c.Table[i], c.Table[j] = c.Table[j], c.Table[i] })
 	return c
+}
+
+var c13RawPool = []string{"utm=%zz", "note=100%", "x=%", "a;b=1", ";", "q=a;b", "%gg=1", "dup=1&dup=2&dup=1", "=novalue", "novalue", "",
+	"k=%41%", "other=%e9", "sp=a+b", "json={\"a\":1}", "key2=tok", "a=1;key=tok", "&&", "x=%4", "%=1"}
+
+// 1-3 raw fragments for the rest of a query string / urlencoded body: bad escapes, semicolons, duplicates, a very
+// long field, and now and then a malformed field under the looked-up name itself
+func c13RawFragments(r *rand.Rand, name string) []string {
+	var out []string
+	for k := 1 + r.Intn(3); k > 0; k-- {
+		switch r.Intn(10) {
+		case 0:
+			out = append(out, "pad="+strings.Repeat("a", 3000+r.Intn(4000)))
+		case 1:
+			out = append(out, name+c13Pick(r, []string{"=%zz", "=%", ";x=1", "=a;b", "%=1"}))
+		default:
+			out = append(out, c13Pick(r, c13RawPool))
+		}
+	}
+	return out
+}
+
+// shapes of a request whose form carries the key: urlencoded with malformed neighbours in body and/or query,
+// multipart with mixed-case media types / parameters / odd boundaries, other methods, non-form media types
+func c13DecorateForm(r *rand.Rand, c *c13Case, name string) {
+	switch r.Intn(8) {
+	case 0, 1, 2: // malformed neighbours in the body, sometimes in the query as well
+		c.RawBody = c13RawFragments(r, name)
+		c.RawFirst = r.Intn(2) == 0
+		if r.Intn(3) == 0 {
+			c.RawQuery = c13RawFragments(r, name)
+		}
+	case 3: // body fine, query string malformed
+		c.RawQuery = c13RawFragments(r, name)
+		c.RawFirst = r.Intn(2) == 0
+	case 4, 5: // multipart
+		c.Multipart = true
+		c.Boundary = c13Pick(r, []string{"", "xYzBoundary", "----WebKitFormBoundary7MA4YWxkTrZu0gW", "a", "b'()+_,-./:=?0",
+			strings.Repeat("b", 70), "with space x"})
+		c.CT = c13Pick(r, []string{"", "multipart/form-data", "Multipart/Form-Data", "MULTIPART/FORM-DATA", "multipart/Form-data",
+			"multipart/form-data; charset=utf-8; boundary=%s", "Multipart/Form-Data;boundary=%s", "multipart/form-data; Boundary=%s",
+			"multipart/form-data ; boundary=%s"})
+		if r.Intn(3) == 0 {
+			c.RawQuery = c13RawFragments(r, name)
+		}
+	case 6: // media type spellings of urlencoded bodies, and bodies net/http does not treat as forms
+		c.CT = c13Pick(r, []string{"application/x-www-form-urlencoded; charset=UTF-8", "Application/X-WWW-Form-Urlencoded",
+			"application/x-www-form-urlencoded;charset=utf-8", "APPLICATION/X-WWW-FORM-URLENCODED", "text/plain", "application/json", "application/x-www-form-urlencoded; charset"})
+		if r.Intn(2) == 0 {
+			c.RawBody = c13RawFragments(r, name)
+		}
+	}
+	if r.Intn(5) == 0 {
+		c.Method = c13Pick(r, []string{"PUT", "PATCH", "PUT", "DELETE", "GET"})
+	}
 }
 
 func c13Gen(r *rand.Rand, tier string) []any {
@@ -936,6 +1105,8 @@ func c13Clone(c *c13Case) *c13Case {
 	d.Form = append([]c13KV(nil), c.Form...)
 	d.Cookie = append([]string(nil), c.Cookie...)
 	d.Params = append([]string(nil), c.Params...)
+	d.RawQuery = append([]string(nil), c.RawQuery...)
+	d.RawBody = append([]string(nil), c.RawBody...)
 	return &d
 }
 
@@ -1000,13 +1171,43 @@ func c13Shrink(ci any) []any {
 		d.ErrValid = false
 		out = append(out, d)
 	}
+	for i := range c.RawQuery {
+		d := c13Clone(c)
+		d.RawQuery = append(d.RawQuery[:i], d.RawQuery[i+1:]...)
+		out = append(out, d)
+	}
+	for i := range c.RawBody {
+		d := c13Clone(c)
+		d.RawBody = append(d.RawBody[:i], d.RawBody[i+1:]...)
+		out = append(out, d)
+	}
+	if c.Method != "" {
+		d := c13Clone(c)
+		d.Method = ""
+		out = append(out, d)
+	}
+	if c.Boundary != "" {
+		d := c13Clone(c)
+		d.Boundary = ""
+		out = append(out, d)
+	}
+	if c.Multipart {
+		d := c13Clone(c)
+		d.Multipart, d.CT, d.Boundary = false, "", ""
+		out = append(out, d)
+	}
+	if c.CT != "" {
+		d := c13Clone(c)
+		d.CT = ""
+		out = append(out, d)
+	}
 	return out
 }
 
 func init() {
 	register(&Prop{
 		ID:             "C13",
-		Rule:           "sequential cases (compared with the model): half BasicAuth, half KeyAuth; plus 1/8 as many overlapping streams (oracle only): ONE middleware instance, 2-3 requests with multi-value headers / several lookup sources, request i stops inside its k-th validator call (channels, no timing) until request i+1 has been served completely, every request judged on its own by the same oracle. Sequential cases: Basic: Authorization values assembled from scheme (casings, truncated, foreign, with U+017F / U+212A / invalid bytes) + separator (space, none, other) + payload (std base64 of user:password incl. empty parts, colons in the password, non-UTF-8; unpadded, URL alphabet, CR/LF inside, truncated, trailing garbage, foreign character, non-zero trailing bits, raw), 0-3 header lines, validator table keyed by credentials (the intended pair + near misses such as the split at the last colon) with outcomes true/false/error((false|true),err). Key: 1-3 lookup sources (header with scheme prefix / explicit cut prefix / none, query, form, cookie), 0-23 values per location with prefix variants, ErrorHandler absent / returns nil / passes / returns HTTPError, ContinueOnIgnoredError. Non-trivial = the validator was called or the base64 text was rejected; distinct = distinct model op lines",
+		Rule:           "sequential cases (compared with the model): half BasicAuth, half KeyAuth; plus 1/8 as many overlapping streams (oracle only): ONE middleware instance, 2-3 requests with multi-value headers / several lookup sources, request i stops inside its k-th validator call (channels, no timing) until request i+1 has been served completely, every request judged on its own by the same oracle. Sequential cases: Basic: Authorization values assembled from scheme (casings, truncated, foreign, with U+017F / U+212A / invalid bytes) + separator (space, none, other) + payload (std base64 of user:password incl. empty parts, colons in the password, non-UTF-8; unpadded, URL alphabet, CR/LF inside, truncated, trailing garbage, foreign character, non-zero trailing bits, raw), 0-3 header lines, validator table keyed by credentials (the intended pair + near misses such as the split at the last colon) with outcomes true/false/error((false|true),err). Key: 1-3 lookup sources (header with scheme prefix / explicit cut prefix / none, query, form, cookie, param), 0-23 values per location with prefix variants; for form / query sources the REST of the body / query string is partly malformed (bad %-escapes, semicolons, duplicate and 3-7 KB fields, a malformed field under the looked-up name) in front of or behind the well-formed key, multipart/form-data bodies with mixed-case media types, extra parameters and odd boundaries, urlencoded media-type spellings, non-form media types, PUT/PATCH/DELETE/GET with a body, body combined with query string, ErrorHandler absent / returns nil / passes / returns HTTPError, ContinueOnIgnoredError. Non-trivial = the validator was called or the base64 text was rejected; distinct = distinct model op lines",
 		New:            func() any { return &c13Case{} },
 		Gen:            c13Gen,
 		Run:            c13Run,
